@@ -118,9 +118,9 @@ func init() {
 	propGens["C10"] = func(r *rng, thorough bool) ([]CaseSet, string, bool) {
 		nf, per, nch, maxc := 25, 20, 1500, 30000
 		if thorough {
-			nf, per, nch, maxc = 200, 0, 20000, 2000000
+			nf, per, nch, maxc = 200, 0, 6000, 120000
 		}
-		return []CaseSet{genChunked(r, nf, maxc, per), genChains(r, nch, maxc)},
+		return []CaseSet{genChunked(r, nf, maxc, per), genChains(r, nch, maxc/2)},
 			"valid files (corpus + generated) x six entry points x read schedules {whole,1,2,3,7,13,4095,4096,4097,8192,mixed,data-with-EOF}; chains of 1-4 files with random schedules, trailing garbage, faults at the end. Oracles: bytes pulled from the reader = header+data+2 on success of Decode/CheckIntegrity and never more than the frame; result independent of the schedule; chained = per-file decode", false
 	}
 	propPost["C10"] = postC10
